@@ -1,5 +1,6 @@
 """C04 Checkout metrics equal the recursive expansion of the worst tree."""
-from ._camp import run_campaign
+from ._camp import run_campaign, api_delay_stage
+from .. import oracle as _O
 
 LEVEL = "exploration"
 
@@ -15,4 +16,5 @@ def run(chk, b, tier):
                  "several names, empty subtrees, trees reachable only through a tag / ref / ROOT); the 7 checkout numbers "
                  "vs a memoised big-integer DP, each dimension maximised independently. Non-trivial: >=4 reachable objects.",
                  permute=0.3)
+    api_delay_stage(chk, b, _O.CHECKOUT_KEYS + (["reference_count"] if "C04" == "C01" else []), "C04", 6 if tier == "quick" else 150)
     chk.assumptions += ["reference model and generator trusted; generator self-checked against git"]
